@@ -188,9 +188,15 @@ pub struct Shared {
     pub flushes: usize,
     pub clock_advances: usize,
     pub clock_advanced_ms: u64,
+    pub would_block_reads: usize,
+    pub would_block_at: Option<usize>,
 }
 
 pub type SharedRef = Rc<RefCell<Shared>>;
+
+/// In a delivery schedule: the reader reports `WouldBlock` once (stdin is non-blocking and the
+/// producer has nothing yet), then carries on with the next entry.
+pub const WOULD_BLOCK: usize = usize::MAX - 7;
 
 /// Delivery schedule: cyclic list of chunk sizes; 0 = `Interrupted` before the next delivery.
 pub struct SimReader {
@@ -262,6 +268,12 @@ impl BufRead for SimReader {
             if c == 0 {
                 self.shared.borrow_mut().eintr_reads += 1;
                 return Err(io::Error::new(io::ErrorKind::Interrupted, "simulated EINTR"));
+            }
+            if c == WOULD_BLOCK {
+                let mut sh = self.shared.borrow_mut();
+                sh.would_block_reads += 1;
+                sh.would_block_at = Some(self.pos);
+                return Err(io::Error::new(io::ErrorKind::WouldBlock, "simulated EAGAIN"));
             }
             let n = c.min(self.data.len() - self.pos);
             self.buf_start = self.pos;
